@@ -111,6 +111,21 @@ func goLookup(pkg *types.Package, t types.Type, name string) lookupRes {
 	return lookupRes{cls: "none"}
 }
 
+// pathNames: the explicit selector path (names of the embedded fields, then the field) of a field index path
+func pathNames(t types.Type, index []int) []string {
+	var out []string
+	for _, i := range index {
+		if p, ok := t.Underlying().(*types.Pointer); ok {
+			t = p.Elem()
+		}
+		st := t.Underlying().(*types.Struct)
+		f := st.Field(i)
+		out = append(out, f.Name())
+		t = f.Type()
+	}
+	return out
+}
+
 func inMethodSet(t types.Type, name string, pkg *types.Package) bool {
 	return types.NewMethodSet(t).Lookup(pkg, name) != nil
 }
@@ -206,16 +221,22 @@ func (g *siteGen) qnames() []string {
 func (g *siteGen) selectorSites() {
 	r := g.r
 	hasLate := len(g.p.Late) > 0
-	for _, td := range g.h.Types {
+	for k, td := range g.h.Types {
 		if td.Kind == KIface {
 			continue
 		}
 		T := named(g.pkg, td.Name)
+		deep := g.h.Shape == "deep"
 		for _, name := range g.qnames() {
 			lr := goLookup(g.pkg, T, name)
 			depth := len(lr.index) - 1
 			var prob int // out of 100
 			switch {
+			case deep && (k > 2 || depth < 4) && lr.cls != "ambiguous":
+				// towers: the sites concentrate on names found >= 4 levels below the three top types
+				prob = 2
+			case deep && lr.cls == "ambiguous":
+				prob = 6
 			case lr.cls == "ambiguous":
 				prob = 60
 			case lr.cls == "none":
@@ -239,6 +260,12 @@ func (g *siteGen) selectorSites() {
 					recv, form = pv, "selp"
 				}
 				g.add(form, desc(form), ret(nil, []string{fieldUse(g.h, recv+"."+name, ft)}), 1)
+				if b, ok := ft.(*types.Basic); ok && b.Kind() == types.Int && depth >= 1 && r.Chance(1, 2) {
+					// assignment through the promoted name, read back through the explicit path (and restored)
+					full := recv + "." + strings.Join(pathNames(T, lr.index), ".")
+					g.add("selset", desc("selset"), ret([]string{"old := " + full, recv + "." + name + " = 4242", "got := " + full, recv + "." + name + " = old"},
+						[]string{"got", recv + "." + name}), 1)
+				}
 			case "method":
 				fn := lr.obj.(*types.Func)
 				forms := []string{"selv", "selp", "mval", "mvalp"}
@@ -1014,6 +1041,41 @@ func main() {
 		progs = append(progs, p)
 		checks = append(checks, nil)
 	}
+	// part 2: towers (embedding 6..9 levels deep, siblings at every level); part 3: twin types
+	nDeep, nTwin := 6, 6
+	if a.Thorough() {
+		nDeep, nTwin = 80, 80
+	}
+	if a.Replay != "" {
+		nDeep, nTwin = 0, 0
+	}
+	for i := 0; i < nDeep; i++ {
+		r := rng.Fork()
+		h := genDeepHier(r)
+		p := h.prog(fmt.Sprintf("d%04d", i))
+		ck := typecheck(p, false)
+		if len(ck.declErrs) > 0 || len(ck.siteErrs) > 0 {
+			fmt.Fprintf(os.Stderr, "generator bug: declarations of %s do not type-check: %v\n%s\n", p.Name, ck.declErrs, p.goSource("h", map[int]bool{}))
+			os.Exit(2)
+		}
+		g := &siteGen{p: p, h: h, pkg: ck.pkg, r: r, rep: rep}
+		rep.Dist("hierarchy:tower")
+		g.selectorSites()
+		g.ifaceSites()
+		progs = append(progs, p)
+		checks = append(checks, nil)
+	}
+	for i := 0; i < nTwin; i++ {
+		p := genTwinProg(rng.Fork(), fmt.Sprintf("t%04d", i))
+		ck := typecheck(p, false)
+		if len(ck.declErrs) > 0 {
+			fmt.Fprintf(os.Stderr, "generator bug: declarations of %s do not type-check: %v\n%s\n", p.Name, ck.declErrs, p.goSource("h", map[int]bool{}))
+			os.Exit(2)
+		}
+		rep.Dist("program:twin-types")
+		progs = append(progs, p)
+		checks = append(checks, nil)
+	}
 	if pf, err := os.Create(a.Path("progs.jsonl")); err == nil {
 		for _, p := range progs {
 			b, _ := json.Marshal(p)
@@ -1070,7 +1132,7 @@ func main() {
 			goOK := accepted[p.Name][s.ID]
 			in := map[string]interface{}{"prog": p.Name, "types": p.Types, "decls": p.Decls, "late": p.Late, "vars": p.Vars, "site": s}
 			rep.Dist("site:" + s.Kind)
-			nontriv := s.Kind != "selv" && s.Kind != "selp" || strings.Contains(s.Desc, "ambiguous")
+			nontriv := s.Kind != "selv" && s.Kind != "selp" || strings.Contains(s.Desc, "ambiguous") || (p.Hier != nil && p.Hier.Shape == "deep")
 			rep.Count(string(hb)+s.Desc+s.Body, nontriv)
 			switch {
 			case goOK && !res.compiled:
